@@ -197,7 +197,9 @@ class CompressConfig:
         assert 0 < self.threshold < 1
         # count how many sing vals < trunc
         normed_sigma = sigma / scipy.linalg.norm(sigma)
-        return int(np.sum(normed_sigma > self.threshold))
+        # keep at least the largest one: with a large threshold (or many equal singular values)
+        # no normalized singular value may exceed the threshold, and a bond can't have dimension 0
+        return max(int(np.sum(normed_sigma > self.threshold)), 1)
 
     def _fixed_m_trunc(self, sigma: np.ndarray, idx: int, left: bool) -> int:
         assert self.max_dims is not None
